@@ -455,6 +455,37 @@ fn table_dispatch(ctx: &Ctx, arg: &dyn Fn(&str) -> Option<String>) {
 				for k in keys.iter().filter(|k| k.kp.as_remote().is_none()) {
 					lines.push_str(&format!("{} {} {} {}\n", k.alg, crate::util::hex(&k.kp.serialize_der()), crate::util::hex(k.kp.public_key_raw()), crate::util::hex(k.kp.serialize_pem().as_bytes())));
 				}
+				// keys offered in their traditional encoding through every entry point, the PKCS#8-only ones
+				// included: whatever this back end ACCEPTS it can export, and the export must load elsewhere
+				for k in keys.iter().filter(|k| k.kp.as_remote().is_none() && !k.alg.contains("ED25519")) {
+					let trad = match crate::ossl::load_private(&k.pkcs8) {
+						Ok(pk) => pk.rsa().and_then(|r| r.private_key_to_der()).or_else(|_| pk.ec_key().and_then(|e| e.private_key_to_der())),
+						Err(_) => continue,
+					};
+					let (trad, alg) = match (trad, table::alg_by_name(&k.alg)) {
+						(Ok(t), Some(a)) => (t, a),
+						_ => continue,
+					};
+					let label = if k.alg.contains("RSA") { "RSA PRIVATE KEY" } else { "EC PRIVATE KEY" };
+					let tpem = crate::pemx::encode(label, &trad, "\n");
+					let as_p8_pem = crate::pemx::encode("PRIVATE KEY", &trad, "\n");
+					let attempts: Vec<(&str, Result<rcgen::KeyPair, rcgen::Error>)> = vec![
+						("from_pkcs8_der_and_sign_algo", rcgen::KeyPair::from_pkcs8_der_and_sign_algo(&pki_types::PrivatePkcs8KeyDer::from(trad.clone()), alg)),
+						("from_pkcs8_pem_and_sign_algo", rcgen::KeyPair::from_pkcs8_pem_and_sign_algo(&as_p8_pem, alg)),
+						("try_from", rcgen::KeyPair::try_from(trad.as_slice())),
+						("from_pem", rcgen::KeyPair::from_pem(&tpem)),
+						("from_pem_and_sign_algo", rcgen::KeyPair::from_pem_and_sign_algo(&tpem, alg)),
+					];
+					for (how, r) in attempts {
+						match r {
+							Ok(kp) => {
+								ctx.count(&format!("outcome:traditional-encoding-accepted:{}", how));
+								lines.push_str(&format!("{:?} {} {} {}\n", kp.algorithm(), crate::util::hex(&kp.serialize_der()), crate::util::hex(kp.public_key_raw()), crate::util::hex(kp.serialize_pem().as_bytes())));
+							},
+							Err(_) => ctx.count(&format!("outcome:traditional-encoding-refused:{}", how)),
+						}
+					}
+				}
 				let _ = std::fs::write(std::path::Path::new(&dir).join(format!("exported-{}.txt", crate::BACKEND)), lines);
 			}
 		},
